@@ -49,6 +49,15 @@ def check(ctx, m, cfg, functions=None):
             n += 1
             inst = {"function": f.name, "at": c.where(), "res15_edge_rad": e, "config": cfg}
             t = _fconst(c.ops[2]) if len(c.ops) > 2 else None
+            if t is None and c.ops[2][0] == "i" and f.insts[c.ops[2][1]].op == "load" and f.insts[c.ops[2][1]].ops[0][0] == "g":
+                # a named constant (`static const double TOL = ...`)
+                g = f.insts[c.ops[2][1]].ops[0][1]
+                if m.globals.get(g, {}).get("const"):
+                    try:
+                        v = T.get(g)
+                        t = float(v) if isinstance(v, (int, float)) else None
+                    except AnalysisBroken:
+                        t = None
             if t is None and c.ops[2][0] == "a":
                 # a wrapper that forwards its own parameter: judged at its callers
                 k = c.ops[2][1]
